@@ -867,6 +867,11 @@ class Solver:
                 ok = (not s.dirty) and s.ref == "own"
                 self.ob("R-erratomic", body, "exit:Err", body.line(bb), ok, how="no effect before Err",
                         detail="Err exit reached with dirty=%s ref=%s (an effect on the receiver precedes the failure)" % (s.dirty, s.ref))
+                if tracked[0] == "param" and (body.local_ty(tracked[1]) or "").startswith("&mut"):
+                    # the same text in another buffer is still a change the caller can see: the capacity
+                    # and the sharing (is this the buffer my clones read?) are not what they were
+                    self.ob("R-erratomic", body, "exit:Err(same-buffer)", body.line(bb), not s.asg, how="receiver still names the buffer it had",
+                            detail="Err exit reached after the receiver was moved to another buffer (unshared or reallocated copy): the failed call left it with a different capacity / no longer sharing")
 
     def _switch(self, body, tracked, bb, t, cur, add):
         arms = t["arms"]
